@@ -34,7 +34,7 @@ class Ghost:
         self.noseg: set[str] = set()  # keys whose writer never created the segment
 
 
-def build_state(ch, statuses, with_bytes: bool, nreaders=None, stale_files=True):
+def build_state(ch, statuses, with_bytes: bool, nreaders=None, stale_files=True, delayed_fixed=None):
     """An arbitrary state satisfying the representation invariant (assumed, not checked, here)."""
     w = stubs_shm.reset_world()
     now = ch.int("now", 1, None)
@@ -66,7 +66,10 @@ def build_state(ch, statuses, with_bytes: bool, nreaders=None, stale_files=True)
         ch.assume((rf == 0 and rl == 0) or (0 < rf and rf <= rl and rl <= now))
         if readers:
             ch.assume(rf > 0)
-        delayed = bool(readers) and ch.flag(f"delayed{i}")
+        if delayed_fixed is not None and str(i) in delayed_fixed:
+            delayed = bool(readers) and bool(delayed_fixed[str(i)])
+        else:
+            delayed = bool(readers) and ch.flag(f"delayed{i}")
         content = [ch.int(f"b{i}{k}", 0, 255) for k in range(3)] if with_bytes else [17 + i, 42 + i, 77 + i]
         if st != DS.created:
             g.content[key] = content
@@ -402,9 +405,10 @@ class ShmLiveness(Harness):
                 for rds in itertools.product(range(3), repeat=k):
                     base = {"statuses": list(sts), "readers": list(rds)}
                     if sum(rds) >= 3:
-                        from vf.engine_xh import split_prefixes
-
-                        out += [{**base, "_prefix": p} for p in split_prefixes(self.body, base, 4)]
+                        # case split on the delayed-purge flags of the datasets that have readers
+                        idx = [i for i, r in enumerate(rds) if r]
+                        for flags in itertools.product([0, 1], repeat=len(idx)):
+                            out.append({**base, "delayed": {str(i): f for i, f in zip(idx, flags)}})
                     else:
                         out.append(base)
         return out
@@ -421,7 +425,7 @@ class ShmLiveness(Harness):
 
     def body(self, ch, params):
         statuses = [STATUSES[i] for i in params["statuses"]]
-        mgr, w, g = build_state(ch, statuses, False, params.get("readers"))
+        mgr, w, g = build_state(ch, statuses, False, params.get("readers"), delayed_fixed=params.get("delayed"))
         install_unlink_monitor(mgr, w)
         size = ch.int("req", 1, None)
         ch.assume(size <= mgr.capacity)
@@ -615,3 +619,51 @@ class ShmServer(Harness):
 
 
 register(ShmServer())
+
+
+class ShmInit(Harness):
+    """C08: the real Manager.__init__ with symbolic configured and available capacity: free space starts equal to the
+    (trimmed) capacity."""
+
+    name = "shm-init"
+    properties = ("C08",)
+    engine = "E1-crosshair"
+    rule = "one path = ordering class of (configured capacity or none, capacity available in /dev/shm); non-trivial = a capacity was configured"
+    assumptions = ["get_capacity() returns an arbitrary positive integer; Disk() is inert"]
+    outside = []
+
+    def shards(self, tier):
+        return [{"configured": c} for c in (0, 1)]
+
+    def budget(self, tier):
+        return 30.0
+
+    def bounds(self, tier):
+        return {"capacities": "unbounded symbolic integers"}
+
+    def functions(self):
+        return [dataset.Manager.__init__]
+
+    def body(self, ch, params):
+        avail = ch.int("available", 1, None)
+        conf = ch.int("configured", 1, None) if params["configured"] else None
+        old_gc, old_disk = dataset.get_capacity, dataset.disk.Disk
+        inert_disk = stubs_shm.make_manager(1).disk
+        dataset.get_capacity = lambda: avail
+        dataset.disk.Disk = lambda: inert_disk
+        try:
+            m = dataset.Manager("p", conf)
+        finally:
+            dataset.get_capacity, dataset.disk.Disk = old_gc, old_disk
+        want = avail
+        if conf is not None and conf <= avail:
+            want = conf
+        ch.note("nontrivial", conf is not None)
+        ch.note("fingerprint", ("conf", conf is not None, "trim", bool(conf is not None and conf > avail)))
+        if not (m.capacity == want):
+            raise Violation("capacity-not-trimmed-to-available", "capacity exceeds what /dev/shm offers")
+        if not (m.free_space == m.capacity):
+            raise Violation("initial-free-space-differs-from-capacity", "a fresh store reports free space different from its capacity")
+
+
+register(ShmInit())
